@@ -2,6 +2,7 @@ import MM.Props.Exhaustive
 import MM.Props.Greedy
 import MM.Props.C04Series
 import MM.Props.DiagTests
+import MM.Props.DiagTestsTie
 #print axioms MM.Search.C04_score_of_design
 #print axioms MM.Search.C04_greedy_score
 #print axioms MM.Search.exhaustive_sub_evaluated
@@ -19,3 +20,7 @@ import MM.Props.DiagTests
 #print axioms MM.Numeric.aaTest_verdict
 #print axioms MM.Numeric.aaTest_interval
 #print axioms MM.Numeric.float_order_lt
+#print axioms MM.Numeric.tie_corr_test
+#print axioms MM.Numeric.tie_dw_test
+#print axioms MM.Numeric.tie_bb_test
+#print axioms MM.Numeric.tie_aa_test
